@@ -64,7 +64,7 @@ impl Check for C04 {
     }
     fn runs(&self, tier: Tier) -> u64 {
         match tier {
-            Tier::Quick => 3_000,
+            Tier::Quick => 10_000,
             Tier::Thorough => 200_000,
         }
     }
